@@ -152,6 +152,20 @@ example : ∃ dbA dbB, execAll true [] exA2 = some dbA ∧ execAll true [] exB2 
   ⟨_, _, by rfl, by rfl, dbEquiv_of_B _ _ (by decide)⟩
 example : (execAll true [] exB2).map specView = some [("t", ["a", "c", "b"])] := by decide
 
+-- the same hypotheses for the shape seeded change C03-s needs: every column carries several expression options (DEFAULT,
+-- COMMENT) and the second script writes each column's options in the opposite order
+def exOpt : List Stmt :=
+  [.createTable "ticket" 0 [{ name := "id", typ := "int(11)", opts := [{ kind := .notNull }] },
+                            { name := "status", typ := "varchar(64)", opts := [{ kind := .notNull }, { kind := .default, dflt := .num "7" }, { kind := .comment, text := "x" }] },
+                            { name := "n", typ := "int(11)", opts := [{ kind := .default, dflt := .num "0" }, { kind := .comment, text := "how many" }] }] []]
+def exOptRev : List Stmt :=
+  [.createTable "ticket" 0 [{ name := "id", typ := "int(11)", opts := [{ kind := .notNull }] },
+                            { name := "status", typ := "varchar(64)", opts := [{ kind := .comment, text := "x" }, { kind := .default, dflt := .num "7" }, { kind := .notNull }] },
+                            { name := "n", typ := "int(11)", opts := [{ kind := .comment, text := "how many" }, { kind := .default, dflt := .num "0" }] }] []]
+example : exOpt.all Stmt.elemSafe = true ∧ exOptRev.all Stmt.elemSafe = true ∧ exOpt.all Stmt.plainOpts = true ∧ exOptRev.all Stmt.plainOpts = true := by decide
+example : ∃ dbA dbB, execAll true [] exOpt = some dbA ∧ execAll true [] exOptRev = some dbB ∧ dbA ≠ dbB ∧ DBEquiv dbA dbB :=
+  ⟨_, _, by rfl, by rfl, by decide, dbEquiv_of_B _ _ (by decide)⟩
+
 -- non-vacuity of `same_script_empty`: a script with keys, indexes, a dropped column and a modify meets the hypotheses
 def exScript : List Stmt :=
   [.createTable "u" 0 [{ name := "id", typ := "int(11)" }] ["id"],
